@@ -628,8 +628,7 @@ func unop(fr *frame, instr *ssa.UnOp, x Val) Val {
 	checkPoison(x)
 	switch instr.Op {
 	case token.ARROW:
-		ch := x.(*Chan)
-		v, ok := chanRecv(fr, ch, instr.X.Type().Underlying().(*types.Chan).Elem())
+		v, ok := chanRecv(fr, asChan17(x), instr.X.Type().Underlying().(*types.Chan).Elem())
 		if instr.CommaOk {
 			return Tuple{v, ok}
 		}
@@ -1709,7 +1708,7 @@ func callBuiltin(caller *frame, pos token.Pos, fn *ssa.Builtin, args []Val) Val 
 			if x == nil {
 				return int64(0)
 			}
-			return int64(len(x.buf))
+			return int64(chanLen17(x))
 		}
 		panic(fmt.Sprintf("len: illegal operand: %T", args[0]))
 	case "cap":
